@@ -13,7 +13,8 @@ Carry == {"take_scalar", "take_list", "take_slice", "take_mask", "take_position"
           "reindex_axis", "reindex_axis_axisobj", "reindex_axis_ndarray", "align_outer", "align_inner_sort", "take_dict", "loc_slice", "reindex_like", "sort_axis", "interp_axis", "dropna", "fillna", "setna", "put_copy", "copy"}
 \* operation classes that return arrays without the operands' metadata
 Drop == {"add", "sub", "mul", "truediv", "floordiv", "pow", "radd", "rsub", "scalar_mul", "ndarray_add",
-         "neg", "pos", "invert", "eq", "ne", "lt", "le", "gt", "ge", "and", "or", "stack", "concatenate"}
+         "neg", "pos", "invert", "eq", "ne", "lt", "le", "gt", "ge", "and", "or", "stack", "concatenate",
+         "concatenate_single", "stack_single", "concatenate_tuple3"}
 \* operations on one axis after which that axis keeps its own metadata
 AxisCarry == {"take_list", "take_slice", "take_mask", "take_position", "take_axis", "compress_axis", "reindex_axis", "reindex_axis_axisobj",
               "reindex_axis_ndarray", "align_outer", "align_inner_sort", "take_dict", "loc_slice", "sort_axis", "dropna",
